@@ -769,7 +769,27 @@ func (w *world) doStep1(s *step) map[string]interface{} {
 			if st == 0 {
 				retv = valCode(r.Ret, len(r.Ret) > 0)
 			}
-			recs = append(recs, []interface{}{st, errClass(string(r.Ret)), retText(r.Ret), ordered, len(r.Events), retv})
+			// the interchain events the receipt carries: [destination chain, index the event is stamped with, isBatch]
+			posted := [][]interface{}{}
+			for _, ev := range r.Events {
+				if ev.EventType != pb.Event_INTERCHAIN {
+					continue
+				}
+				m := map[string]*pb.EventWrapper{}
+				if json.Unmarshal(ev.Data, &m) != nil {
+					posted = append(posted, []interface{}{"?", -1, false})
+					continue
+				}
+				ks := make([]string, 0, len(m))
+				for k := range m {
+					ks = append(ks, k)
+				}
+				sort.Strings(ks)
+				for _, k := range ks {
+					posted = append(posted, []interface{}{k, m[k].Index, m[k].IsBatch})
+				}
+			}
+			recs = append(recs, []interface{}{st, errClass(string(r.Ret)), retText(r.Ret), ordered, len(r.Events), retv, posted})
 		}
 		out["receipts"] = recs
 		out["counter"] = w.counter(ev.InterchainMeta.Counter)
@@ -843,12 +863,13 @@ func retText(b []byte) string {
 
 type history struct {
 	Cfg struct {
-		Admins int    `json:"admins"`
-		Gas    int64  `json:"gas"`
-		Audit  bool   `json:"audit"`
-		Bal    string `json:"bal"`
-		Proof  string `json:"proof"` // "" / "serial" / "parallel": proof verification grouping
-		Ledger string `json:"ledger"` // "" / "simple" / "complex": state ledger type
+		Admins  int    `json:"admins"`
+		Gas     int64  `json:"gas"`
+		Audit   bool   `json:"audit"`
+		Bal     string `json:"bal"`
+		Proof   string `json:"proof"`   // "" / "serial" / "parallel": proof verification grouping
+		Ledger  string `json:"ledger"`  // "" / "simple" / "complex": state ledger type
+		Plugins bool   `json:"plugins"` // register the two plugin contracts of plugins.go (relay -> emitter)
 	} `json:"cfg"`
 	Steps   []step `json:"steps"`
 	Timeout int    `json:"timeout_ms"`
@@ -863,6 +884,9 @@ func runOne(_ []string) error {
 	var h history
 	if err := json.Unmarshal(data, &h); err != nil {
 		return err
+	}
+	if h.Cfg.Plugins {
+		registerPlugins() // before the executor is built: it collects the registered contracts then
 	}
 	c, err := hx.NewChain(hx.ChainOpts{NumAdmins: h.Cfg.Admins, GasPrice: h.Cfg.Gas, EnableAudit: h.Cfg.Audit, Balance: h.Cfg.Bal, Quiet: true, ProofType: h.Cfg.Proof, LedgerType: h.Cfg.Ledger})
 	if err != nil {
